@@ -1768,16 +1768,44 @@ class FloodFillSubsetState(MaskSubsetState):
 
         self._compute_mask()
 
+    @classmethod
+    def _restored(cls, att, start_coords, threshold):
+        # The dataset is recovered from the attribute, but while a session is
+        # being restored the attribute only gets its parent once the dataset
+        # itself has been loaded, which can be after this state (a subset
+        # group is loaded together with the first dataset). The dataset, the
+        # pixel component IDs and the mask are therefore resolved on first use.
+        self = cls.__new__(cls)
+        self._att = att
+        self._data = None
+        self._start_coords = tuple(start_coords)
+        self._threshold = float(threshold)
+        self._cids = None
+        self._mask_cache = (None, None)
+        return self
+
     @property
     def data(self):
         """
         The data on which the flood fill is computed.
         """
+        if self._data is None:
+            self._data = self._att.parent
         return self._data
 
     @data.setter
     def data(self, value):
         self._data = value
+
+    @property
+    def cids(self):
+        if self._cids is None:
+            self._cids = self.data.pixel_component_ids
+        return self._cids
+
+    @cids.setter
+    def cids(self, value):
+        self._cids = value
 
     @property
     def att(self):
@@ -1835,9 +1863,11 @@ class FloodFillSubsetState(MaskSubsetState):
 
     @property
     def attributes(self):
-        return list(self._data.pixel_component_ids) + [self.att]
+        return list(self.data.pixel_component_ids) + [self.att]
 
     def copy(self):
+        if self.data is None:
+            return self._restored(self.att, self.start_coords, self.threshold)
         return FloodFillSubsetState(self.data, self.att, self.start_coords,
                                     self.threshold)
 
@@ -1850,10 +1880,9 @@ class FloodFillSubsetState(MaskSubsetState):
 
     @classmethod
     def __setgluestate__(cls, rec, context):
-        att = context.object(rec['attribute'])
-        return cls(att.parent, att,
-                   context.object(rec['start_coords']),
-                   context.object(rec['threshold']))
+        return cls._restored(context.object(rec['attribute']),
+                             context.object(rec['start_coords']),
+                             context.object(rec['threshold']))
 
 
 class RoiSubsetState3d(RoiSubsetStateNd):
